@@ -411,6 +411,8 @@ func runC08(env *Env) {
 		}
 		in.Close()
 	}
+	// stored results are visible to every later task: a property bound to a variable is resolved anew for every request
+	propertyPerRequest(env, rep, "C08-results", "C08-results")
 	env.WriteCases(rep, "_modes", "Corr.C08corr", "list nat * nat * nat * nat", citems, "c08_modes_mismatches")
 	env.WriteReport(rep)
 }
